@@ -106,6 +106,12 @@ def specStep (L : Log A) : Op A → Log A × Option (Out A)
 
 def specRun (L : Log A) (ops : List (Op A)) : Log A := ops.foldl (fun l o => (specStep l o).1) L
 
+def specStepH (L : Log A) : HOp A → Log A
+  | .op o => (specStep L o).1
+  | .drop _ => []
+
+def specRunH (L : Log A) (ops : List (HOp A)) : Log A := ops.foldl specStepH L
+
 /-- "`process` only emits applicable events", for the states that can actually occur:
 `Reachable` is the closure of the initial states under accepted commands. -/
 inductive Reachable (A : Agg) : A.State → Prop where
